@@ -15,6 +15,34 @@ ENC = {
 }
 TOL = 1e-12
 
+# sha256 of lean/FairModel/Generated/BaseMetricsSrc.lean as translated from the pinned tree.  While the translation is
+# unchanged, a disagreement between the translated functions (driver ops `bms.*`) and the first-principles oracle is a
+# bug of this machinery (HARNESS-ERROR); after a source edit that changed the translation it is a broken tie and is
+# reported as a correspondence problem (relation C14.generated-source-vs-oracle).
+PINNED_SRC_SHA256 = "cb082fbd4fb78e461077140362324aab53b188af624b49561426c354f1b6de8c"
+_SRC_STATE = {}
+
+
+def source_changed():
+    if "v" not in _SRC_STATE:
+        import hashlib
+        import os
+        from .. import leanrun
+        path = os.path.join(leanrun.LEAN, "FairModel", "Generated", "BaseMetricsSrc.lean")
+        try:
+            with open(path, "rb") as f:
+                _SRC_STATE["v"] = hashlib.sha256(f.read()).hexdigest() != PINNED_SRC_SHA256
+        except OSError:
+            _SRC_STATE["v"] = False
+    return _SRC_STATE["v"]
+
+
+def src_problem(msg):
+    if source_changed():
+        return Problem("correspondence", "the translated source departs from the first-principles oracle "
+                       "(_base_metrics.py changed): " + msg, "C14.generated-source-vs-oracle")
+    return Problem("harness", msg)
+
 
 def fr(x):
     return F(x) if not isinstance(x, str) else F(x)
@@ -64,11 +92,18 @@ def spec_labels(yt, yp, pos):
 @register
 class CHECK(Check):
     pid = "C14"
-    technique = "Lean 4 theorems over the BaseMetrics model + compiled-driver correspondence with the 7 public functions"
+    technique = ("Lean 4 theorems over the BaseMetrics model and over the statement-by-statement TRANSLATION of _base_metrics.py "
+                 "(lifter base_metrics.py -> Generated/BaseMetricsSrc.lean, proved equal to the model) + compiled-driver "
+                 "correspondence with the 7 public functions")
     level_text = ("Theorems (all inputs, no size bound): rates in [0,1], TPR+FNR / TNR+FPR = 1 or both 0, pos_label swap, "
                   "rejection rules of _get_labels_for_confusion_matrix, selection_rate/mean_prediction/count definitions. "
                   "Tie: the 7 public functions vs the compiled Lean model on generated + exhaustive small inputs, value "
-                  "within 1e-12 and scalar-ness of the returned object; independent Fraction oracle decides violations.")
+                  "within 1e-12 and scalar-ness of the returned object; independent Fraction oracle decides violations. "
+                  "Translator tie: the bodies of _get_labels_for_confusion_matrix, the four rates, count, mean_prediction and "
+                  "selection_rate are translated on every run into Lean do-notation over numpy/sklearn primitives "
+                  "(Model/NumpySk.lean); src_*_eq_model prove the translation equal to the hand-written model, the property "
+                  "clauses are restated for the translated functions, and the driver evaluates the TRANSLATED functions "
+                  "(ops bms.*) against fairlearn and the oracle on every case.")
     design_ref = "DESIGN.md section 4, C14"
     quick_cases = 1500
     thorough_cases = 40000
@@ -81,6 +116,10 @@ class CHECK(Check):
     explanation = ("theorems over the Lean model BaseMetrics (all inputs); correspondence: 7 public functions vs compiled "
                    "driver, value within 1e-12 and scalar-ness of the return value; oracle: first-principles Fractions")
     trusted = ("sklearn.metrics.confusion_matrix(normalize='true') incl. nan_to_num of empty rows (modelled by `ratio`)",
+               "the numpy/sklearn primitives of Model/NumpySk.lean (np.dot, .sum(), np.ones, ==, np.unique, np.vstack, "
+               "frozenset.issuperset, confusion_matrix(labels=, sample_weight=, normalize=).ravel()) are specifications; sklearn's "
+               "'At least one label specified must be in y_true' error is not modelled (unreachable from the unchanged code)",
+               "harness/lifters/base_metrics.py: the Python-ast -> Lean do-notation translation of the eight function bodies",
                "string labels are mapped order-preservingly to integers 100.. before entering the model")
     assumptions = ("weights are positive", "labels of one call share a type")
 
@@ -177,6 +216,15 @@ class CHECK(Check):
         if case["enc"] != "str":
             ls.append(f"meanpred {yp} {w}")
         ls.append(f"count {yt} {yp}")
+        # the same calls evaluated by the TRANSLATED source (Generated/BaseMetricsSrc.lean); `none` = sample_weight=None
+        wn = "none" if case["w"] is None else w
+        for pl in self._pls(case):
+            for k in ("tpr", "fnr", "fpr", "tnr"):
+                ls.append(f"bms.rate {k} {yt} {yp} {wn} {'none' if pl is None else pl}")
+        ls.append(f"bms.selrate {yt} {yp} {wn} {1 if case['pos'] is None else case['pos']}")
+        if case["enc"] != "str":
+            ls.append(f"bms.meanpred {yt} {yp} {wn}")
+        ls.append(f"bms.count {yt} {yp}")
         return ls
 
     # ---------------------------------------------------------------- judging
@@ -223,6 +271,26 @@ class CHECK(Check):
                         probs.append(Problem("harness", f"{k}: model {ms} vs oracle {want}"))
                 elif ms.startswith("err") or ms == "bad-op" or proto.p_rat(ms) != want:
                     probs.append(Problem("harness", f"{k}: model {ms} vs oracle {want}"))
+                # translated source (bms.*): against the oracle and against the implementation
+                if len(mo) >= 2 * len(keys):
+                    ss = mo[len(keys) + i]
+                    if ss == "bad-op":
+                        probs.append(Problem("harness", f"{k}: driver rejected the bms line"))
+                    elif isinstance(want, str):
+                        if ss != want:
+                            probs.append(src_problem(f"{k}: translated source gives {ss}, oracle {want}"))
+                    elif ss.startswith("err") or proto.p_rat(ss) != want:
+                        probs.append(src_problem(f"{k}: translated source gives {ss}, oracle {want}"))
+                    if ss != "bad-op":
+                        if ss.startswith("err"):
+                            agree = got[0] == "exc"
+                        else:
+                            agree = got[0] == "scalar" and abs(got[1] - float(proto.p_rat(ss))) <= TOL
+                        if not agree:
+                            probs.append(Problem("correspondence", f"{k}: implementation {got} vs translated source {ss}",
+                                                 "C14.source_translation"))
+                else:
+                    probs.append(Problem("harness", f"driver returned {len(mo)} lines for {2 * len(keys)}"))
         # relations between the impl's own outputs (the property's clauses)
         def val(k):
             g = o.get(k)
